@@ -1315,3 +1315,11 @@ impl Quil for GateType {
         .map_err(Into::into)
     }
 }
+
+/// Verification hook (add-only, compiled only with `--cfg rigetti_quil_rs_verif`): the crate-private
+/// `lifted_gate_matrix` on an arbitrary matrix, so that the lifting can be checked on matrices that are
+/// not table entries.
+#[cfg(rigetti_quil_rs_verif)]
+pub(crate) fn verif_lifted_gate_matrix(matrix: &Matrix, qubits: &[u64], n_qubits: u64) -> Matrix {
+    lifted_gate_matrix(matrix, qubits, n_qubits)
+}
